@@ -3,8 +3,7 @@ import ExaModel.Model.OpenCodec
 # M-Nego — from two OPENs to the session parameters
 
 * `Cfg`, `ourCaps`, `ourOpen`: `Capabilities.new(neighbor, restarted=False)` + `Open.make_open`.
-* `negotiate`: `Negotiated._negotiate` field by field, *as the code computes it* (including F4:
-  `local_as` is read from the 2-octet field of the OPEN that was sent).
+* `negotiate`: `Negotiated._negotiate` field by field, *as the code computes it*.
 * `validateOpen`: `Negotiated.validate` (the refusals with their OPEN error subcodes).
 * `rfcNegotiate`, `rfcRefusals`: a second definition, written from the RFCs on the raw capability
   lists (membership, last ASN4, last ADD-PATH entry of a family) — the oracle.
@@ -132,7 +131,7 @@ def negotiateSets (oursAs oursHold theirsAs theirsHold : Nat) (s r : CapSet) : N
   let ms := (s.multisession && r.multisession) || (s.multisessionCisco && r.multisessionCisco)
   { hold := min oursHold theirsHold
     asn4 := asn4
-    localAs := oursAs            -- F4: `self.sent_open.asn`, the 2-octet field (AS_TRANS for a 4-octet local AS)
+    localAs := s.asn4.getD oursAs   -- the AS number of the ASN4 capability we sent, else the 2-octet field
     peerAs := if theirsAs = asTrans ∧ asn4 = true then r.asn4.getD theirsAs else theirsAs
     families := match r.mp, s.mp with
       | some rm, some sm => rm.filter (fun f => sm.contains f)
@@ -166,7 +165,7 @@ def negotiate (ours theirs : OpenMsg) : Negotiated :=
 def validateOpen (cfg : Cfg) (n : Negotiated) (theirs : OpenMsg) : Option Err :=
   if cfg.peerAs ≠ 0 ∧ n.peerAs ≠ cfg.peerAs then some ⟨2, 2⟩
   else if theirs.bgpId = 0 then some ⟨2, 3⟩
-  else if theirs.myAs = cfg.localAs ∧ theirs.bgpId = cfg.routerId then some ⟨2, 3⟩
+  else if n.peerAs = cfg.localAs ∧ theirs.bgpId = cfg.routerId then some ⟨2, 3⟩
   else if theirs.hold ≠ 0 ∧ theirs.hold < holdMin then some ⟨2, 6⟩
   else match n.multisession with
     | .err c s => some ⟨c, s⟩
